@@ -203,9 +203,8 @@ def _exit_status(ctx: Ctx, e) -> None:
         I = e.interp(stubs=stubs, allow_fork=False)
         try:
             outs = I.explore("cli.validate", lambda: (None, [None, tuple(files), True, 8.2], {}))
-        except AnalysisError as ex:
-            ctx.finding("P11", f"scenario {sc}", loc, f"cannot evaluate: {ex}")
-            continue
+        except AnalysisError:
+            raise
         n_eval += 1
         o = outs[0]
         problems = sum((1 if s == "fail" else s) for s in sc)
@@ -226,9 +225,28 @@ def _exit_status(ctx: Ctx, e) -> None:
     if not exits:
         raise AnalysisError("anchor vanished: sys.exit in cli.validate")
     counters = {n.target.id for n in ast.walk(vf) if isinstance(n, ast.AugAssign) and isinstance(n.target, ast.Name)}
+    assigns: dict = {}
+    for n in ast.walk(vf):
+        if isinstance(n, ast.Assign) and len(n.targets) == 1 and isinstance(n.targets[0], ast.Name):
+            assigns.setdefault(n.targets[0].id, []).append(n.value)
+
+    class Inline(ast.NodeTransformer):
+        def visit_Name(self, node):
+            if node.id not in counters and len(assigns.get(node.id, [])) == 1 and isinstance(node.ctx, ast.Load):
+                import copy as _copy
+
+                return self.visit(_copy.deepcopy(assigns[node.id][0]))
+            return node
+
+    import copy as _copy
+
     for c in exits:
         if not c.args:
             continue
+        arg = c.args[0]
+        for _ in range(5):
+            arg = ast.fix_missing_locations(Inline().visit(_copy.deepcopy(arg)))
+        c = ast.Call(func=c.func, args=[arg], keywords=[], lineno=c.lineno, col_offset=0)
         names = {n.id for n in ast.walk(c.args[0]) if isinstance(n, ast.Name)}
         if not names & counters:
             continue
@@ -238,9 +256,8 @@ def _exit_status(ctx: Ctx, e) -> None:
         fr = pai.Frame(I, "cli.validate", vf, env)
         try:
             v = fr.eval(c.args[0])
-        except AnalysisError as ex:
-            ctx.finding("P11", "exit argument for an unbounded count", repo.loc("cli", c), f"cannot evaluate {norm(c.args[0])}: {ex}")
-            continue
+        except AnalysisError:
+            raise
         if isinstance(v, SNum):
             lo, hi = v.bounds()
         elif isinstance(v, bool):
